@@ -945,7 +945,7 @@ func c19Tasks(tier string) []mc.Task {
 			})
 		}})
 	}
-	return ts
+	return append(ts, c19ManyTasks()...)
 }
 
 func c19OpNames(own bool) string {
@@ -965,6 +965,7 @@ func init() {
 		Rule: "two-step histories on real objects. INPUTS: (F1) ALL alignments of n<=2 rows x L<=3 columns over {A,c,-,N} typed as nucleotides; (F2) the same rows typed as amino acids; (F3) ALL sequence sets of <=2 rows of lengths 1..2 (ragged included); (S) " + strconv.Itoa(len(c19Specials())) + " special containers (empty alignment/set, rows of length 0, two 3x6 coding alignments with ATG...stop on both strands, a ragged coding set, the same in RNA (U / u), mixed case, comments, non-default duplicate-name policies, auto-renamed / odd / long names, unknown alphabet, U . ? * X and other odd residues, 3x3 and 2x4 protein alignments, a ragged protein set, a 4x10 alignment). " +
 			"STEP 1 (on F1, F2, F3, S; in quick F2 is restricted to L<=2), for EVERY operation of the list below with ALL valid small arguments - every site, every (start,length) window, every site list of length <=2 (<=3 in thorough and on S), every option combination, every assignment of the columns to 2..3 parts, 7 nucleotide distance models x remove-gaps x gap-mutation mode x unit/non-unit weights, protein ML distance (LG in quick on F2, all 7 matrices in thorough and on S) x {model, data} frequencies x remove-gaps, pairwise alignment of every ordered row pair with both algorithms, Phase with no / nucleotide / protein reference x translate x reverse x cut-end (protein reference with translation only); on the larger containers of S positions are taken in the first 4 (site lists) / 6 (windows) columns - and, for the randomised ones (BuildBootstrap with fractions 1, 0.5 and 0; RandSubAlign with every length x consecutive/scattered; Sample, SampleSeqBag with every size; Rarefy, RarefySeqBag with 1 and 2 draws from counts 2,1,3,1; all on containers of L<=6, n<=4, with one fraction / one scattered length when L>3), under EVERY sequence of RNG answers: the private state of the container the operation was called on (rows, residues, names, comments, name index, cached length, alphabet, duplicate-name policy, identity of every row buffer and row object) is bit-for-bit equal before and after; the same for every other container passed as an argument (reference ORFs of Phase, nucleotide set of CodonAlign, operand of Identical). " +
 			"STEP 2, for the operations named by the ownership clause (" + c19OpNames(true) + "; Sequence.Clone observed through a one-row view of the clone's buffer): no row object and no byte of row-buffer capacity of the result overlaps the original's; then EVERY in-place mutator of the list (cell writes through SetSequenceChar / ReplaceChar and through each of the 9 accessors that expose the internal slice, row Reverse/Complement/SetName, case change, reverse complement, 5 masking variants + every mask window, MaskUnique, MaskOccurences, renaming x7, residue replacement, Translate, Sort, Clear, AddSequence, Deduplicate, FilterLength, alphabet and policy setters, TrimSequences, Concat, Append, DiffWithFirst, ReplaceMatchChars, site/sequence removal, Compress) applied to the result leaves the original's state equal, and applied to the original leaves the result's state equal. Thorough: on F1, F3, S and on the alignments of F2 that have <=4 cells or use at most 2 distinct letters, with cell/row/column mutators at every cell/row/column. Quick: on S (every cell), on F3, on all alignments of F1 with <=4 cells, on those of F2 with L<=2, and on the 2x3 alignments of F1 that use at most 2 distinct letters; SetSequenceChar at every cell, the other cell/row/column mutators at the first and last cell/row and the last column. " +
+			"MANY ROWS: Clone, Clone of a Clone, CloneSeqBag, SubAlign(all) and SelectSites(all) on alignments of " + fmt.Sprint(c19ManyCounts) + " rows x 3 columns: input unchanged, content equal, no row object and no byte of row buffer shared (sweep over the sorted buffers), and writing the residues and the name of the first row, the last 9 rows and the rows around n/8, n/4, n/3, n/2, 2n/3, 3n/4 of either side leaves the other side's state equal. " +
 			"STEP-1 operations (draw/biojs on S only in quick): " + c19OpNames(false) + ". transitions = real operation calls; states = RNG leaves; distinct_nontrivial = distinct step-1 cases where the operation succeeded + distinct step-2 histories whose mutator really changed its target.",
 		Assumptions: []string{
 			"'bit-for-bit unchanged' is decided on the complete private state of seqbag/align dumped by an overlay-added file of package align (VerifDump) plus the row comments",
@@ -981,6 +982,11 @@ func init() {
 				return
 			}
 			vrt.CatchExitAlways.Store(true)
+			if strings.HasPrefix(cs.Op, "many-rows:") {
+				n, _ := strconv.Atoi(cs.Arg)
+				c19ManyProbe(c, n, strings.TrimPrefix(cs.Op, "many-rows:"))
+				return
+			}
 			if cs.Arg == "*" { // a marked (instance, operation): all arguments
 				op := c19OpByName[cs.Op]
 				if op == nil {
